@@ -241,9 +241,18 @@ OPT_INVALID = [
 # (grid_file / plot_* ARE read by hypnotoad-geqdsk and are therefore not "unknown")
 OPT_UNKNOWN = [{"nx_cor": 4}, {"target_poloidal_spacing_length": 1}, {"Orthogonal": True},
                {"finecontour_nfine": 50}, {"y_boundary_guard": 1}, {"psinorm_edge": 1.1}]
+# an equilibrium option changed between building the equilibrium and building the mesh:
+# differences of every size count, from a flipped bool down to the last digits of a tiny
+# tolerance (a comparison "to within rounding" must not equate 1e-12 with 1e-13)
 OPT_INCONSISTENT = [{"psinorm_sol": 1.1}, {"nx_core": 4}, {"orthogonal": False},
                     {"finecontour_Nfine": 50}, {"refine_atol": 1e-7},
-                    {"xpoint_poloidal_spacing_length": 0.07}]
+                    {"xpoint_poloidal_spacing_length": 0.07},
+                    {"finecontour_atol": 1e-13}, {"sfunc_checktol": 1e-9},
+                    {"refine_atol": 2.0000001e-8}, {"refine_width": 1.00000001e-5},
+                    {"psi_spacing_separatrix_multiplier": 0.5000001},
+                    {"finecontour_overdamping_factor": 0.80000001},
+                    {"y_boundary_guards": 2}, {"refine_methods": ["integrate+newton"]},
+                    {"refine_timeout": None}]
 ENVELOPE = [
     {"nx_core": 1, "nx_sol": 1}, {"ny_sol": 2}, {"ny_inner_divertor": 1},
     {"psinorm_sol": 1.9}, {"psinorm_core": 0.05}, {"psinorm_pf": 0.3},
@@ -380,9 +389,12 @@ def make_case(rng, key, kind=None, entry=None, geom=None):
     elif kind == "opt_inconsistent":
         ch = dict(rng.choice(OPT_INCONSISTENT))
         if entry == "api-circ":
-            ch = dict(rng.choice(({"nx": options["nx"] + 1}, {"orthogonal": False},
-                                  {"finecontour_Nfine": 51}, {"r_inner": 0.11},
-                                  {"refine_atol": 1e-7})))
+            ch = dict(rng.choice(({"orthogonal": False}, {"finecontour_Nfine": 51},
+                                  {"refine_atol": 1e-7}, {"finecontour_atol": 1e-13},
+                                  {"sfunc_checktol": 1e-9}, {"refine_atol": 2.0000001e-8},
+                                  {"refine_width": 1.00000001e-5},
+                                  {"finecontour_overdamping_factor": 0.80000001},
+                                  {"refine_timeout": None})))
         f.update({"changed": ch})
     elif kind == "envelope":
         env = dict(rng.choice(ENVELOPE))
